@@ -641,6 +641,23 @@ func (w *World) PutSP(sp interface{ GetEntityID() string }, appID string) {
 	w.mu.Unlock()
 }
 
+// ReplaceMetadataInPlace refreshes a registration the way a storage does that keeps one long-lived object per service
+// provider: the exported Metadata field of the SAME *ServiceProvider is replaced.
+func (w *World) ReplaceMetadataInPlace(entityID string, metadata []byte) error {
+	fresh, err := serviceprovider.NewServiceProvider("tmp", &serviceprovider.Config{Metadata: metadata}, func(id string) string { return w.LoginURL(id) })
+	if err != nil {
+		return err
+	}
+	w.mu.Lock()
+	defer w.mu.Unlock()
+	sp := w.sps[entityID]
+	if sp == nil {
+		return fmt.Errorf("%s is not registered", entityID)
+	}
+	sp.Metadata = fresh.Metadata
+	return nil
+}
+
 // RemoveSP deregisters a service provider.
 func (w *World) RemoveSP(entityID string) {
 	w.mu.Lock()
